@@ -377,15 +377,10 @@ def run(ctx):
     samples = []
 
     def eof_finding(kind, content, got, want):
-        if kind == "empty":
-            ctx.violation("position:empty-content-invalid",
-                          "SetLinesForContent(\"\") leaves an empty line table: Position(base) = %s (invalid), newline counting gives 1:1" % got,
-                          {"content_hex": "-", "offset": 0, "impl": got, "want": want})
-        else:
-            ctx.violation("position:eof-after-trailing-newline",
-                          "content %r, offset = size = %d: Position gives %s, newline counting gives %s (the line table only holds offsets < size)" % (
-                              content[-12:], len(content), got, want),
-                          {"content_hex": hx(content), "offset": len(content), "impl": got, "want": want})
+        # The one-past-the-end position (offset = size) is not an offset IN the content; go/token, from which
+        # this code derives, reports it on the last line by design (Lean: position_eof, position_empty).
+        # It is compared model-vs-code in the correspondence and counted here, not judged by the oracle.
+        dist["eof_differs_from_newline_count"] = dist.get("eof_differs_from_newline_count", 0) + 1
 
     for i, (op, mt) in enumerate(zip(ops, meta)):
         r = impl[i] if i < len(impl) else "<missing>"
